@@ -101,6 +101,10 @@ func main() {
 		os.Exit(2)
 	}
 	switch os.Args[1] {
+	case "dumpseed":
+		props.DumpSeed(os.Args[2], os.Args[3])
+	case "seeds": // development aid: what every entry point answers on every valid hostile seed
+		props.SeedReport()
 	case "list":
 		ids := []string{}
 		for id := range props.All {
